@@ -236,11 +236,34 @@ def group_hashseed(base, i):
     return rng.choice([rng.randrange(1, 50), rng.randrange(0, 2**32 - 1), rng.randrange(1, 10), 0])
 
 
+def gen_chain(seed, mode, hashseed, rng, pool):
+    """A long chain: ~32 different requests, each built and observed once, in a seeded order.  One
+    compilation per request, n(n-1)/2 ordered (earlier compile, later observation) pairs per
+    history: this is what covers the *pairwise* interactions between arbitrary requests (a memo
+    inside the generator that one request primes and another reads)."""
+    names = rng.sample(pool, min(len(pool), rng.choice([24, 32, 32, 40])))
+    ops = []
+    if rng.random() < 0.7:
+        ops.append(["share_options", True])
+    for i, d in enumerate(names):
+        rq = R.get(d)
+        ops.append(["build", f"s{i}", d, []])
+        if mode == "jit" or "jitonly" in rq.tags:
+            ops.append(["jitname", f"s{i}"])
+        else:
+            ops.append(["compile", f"s{i}", "numba" if rng.random() < 0.15 else None])
+        if rng.random() < 0.5:
+            ops.append(["drop", f"s{i}"])
+    return {"hashseed": hashseed, "ops": ops, "seed": seed, "mode": mode, "chain": True}
+
+
 def gen_history(seed, mode, thorough, hashseed):
     """mode: 'text' (C12) or 'jit' (C13)."""
     rng = core.rng_for(seed, "hist-" + mode)
     pool = history_pool(text_requests(thorough) if mode == "text" else jit_requests(thorough))
-    nreq = rng.choice([2, 3, 4, 5, 6, 8])
+    if rng.random() < 0.25:
+        return gen_chain(seed, mode, hashseed, rng, pool)
+    nreq = rng.choice([3, 4, 6, 8, 10, 12])
     if rng.random() < 0.4:
         fam = rng.choice(families(pool))
         ds = [rng.choice(fam) for _ in range(nreq)]
@@ -319,7 +342,7 @@ def gen_history(seed, mode, thorough, hashseed):
             cnt[k] += o[k]
         pending.append((slot, d))
         # observations on some pending slot (not necessarily the newest: interleaves requests)
-        for _ in range(rng.choice([2, 3, 4, 6])):
+        for _ in range(rng.choice([1, 2, 2, 3, 4])):
             if not pending:
                 break
             s, dn = rng.choice(pending)
@@ -533,7 +556,12 @@ def ident_violations(o):
         r"^void (tabulate_tensor_\w+)\(", o.get("source", ""), re.M)
     dup = [n for n, c in Counter(defined).items() if c > 1]
     if dup:
-        v.append({"key": "N-IDENT/duplicate-definition", "at": o["at"], "D": o["D"],
+        key = "N-IDENT/duplicate-definition"
+        if "multidomain" in R.get(o["D"]).tags and all(n.startswith(("integral_", "tabulate_tensor_integral_"))
+                                                       for n in dup):
+            # integrals of one form over two different meshes: a separately listed cause
+            key += "/integrals-over-two-meshes"
+        v.append({"key": key, "at": o["at"], "D": o["D"],
                   "okey": obs_key(o), "detail": str(dup[:3])})
     bad = [n for n in names + [o.get("module_name") or ""] if not IDENT.match(n)]
     if bad:
@@ -617,7 +645,8 @@ def _run_job(a):
                      "detail": "digest mismatch not reproduced with text: " + str(quick[:1])}]
     logd = core.digest_of(_log_rows(res))
     stats = history_stats(scn, res)
-    return {"seed": seed, "scn": scn, "viol": viol, "digest": logd, "stats": stats}
+    return {"seed": seed, "scn": scn, "viol": viol, "digest": logd, "stats": stats,
+            "pairs": ordered_pairs(scn)}
 
 
 def _run_group(jobs):
@@ -642,8 +671,19 @@ def _run_groups(jobs):
 
 
 def _log_rows(res):
-    return [[e["op"], e.get("stamp"), _strip(e.get("o")), e.get("outcome"), e.get("switches"),
-             [_strip(x) for x in e.get("o_multi", [])] or None] for e in res.get("log", [])]
+    """Normalised event log (the determinism witness).  The heap-address stamp is part of it until
+    the history first runs threads: thread start-up and tear-down allocate outside the
+    simulator's control, so from then on only the counters, texts and names are compared."""
+    rows = []
+    threaded = False
+    for e in res.get("log", []):
+        threaded = threaded or e["op"][0] == "tcompile"
+        stamp = e.get("stamp")
+        if threaded and stamp:
+            stamp = {k: v for k, v in stamp.items() if k != "objid"}
+        rows.append([e["op"], stamp, _strip(e.get("o")), e.get("outcome"), e.get("switches"),
+                     [_strip(x) for x in e.get("o_multi", [])] or None])
+    return rows
 
 
 def _strip(o):
@@ -685,6 +725,38 @@ def check_history_digest(scn, res, goldens, prop):
             if bad_ident or len(set(o.get("object_names") or [])) != len(o.get("object_names") or []):
                 bad.append((obs_key(o), "ident"))
     return bad
+
+
+def ordered_pairs(scn):
+    """(D1, D2): request D2 was observed after request D1 had been compiled in the same process."""
+    slot_req = {}
+    compiled = []
+    out = set()
+    for op in scn["ops"]:
+        if op[0] == "build":
+            slot_req[op[1]] = op[2]
+        elif op[0] == "reform":
+            slot_req[op[2]] = slot_req.get(op[1])
+        elif op[0] in ("compile", "jitname", "xcompile"):
+            d = (op[3] if len(op) > 3 and op[0] != "xcompile" and op[3] else None) or slot_req.get(op[1])
+            if d is None:
+                continue
+            if op[0] != "xcompile":
+                out.update((c, d) for c in compiled if c != d)
+            if d not in compiled:
+                compiled.append(d)
+        elif op[0] == "cli":
+            out.update((c, op[1]) for c in compiled if c != op[1])
+            if op[1] not in compiled:
+                compiled.append(op[1])
+        elif op[0] == "tcompile":
+            ds = [slot_req.get(j[0]) for j in op[1]]
+            for d in ds:
+                out.update((c, d) for c in compiled + ds if c != d and c is not None)
+            for d in ds:
+                if d is not None and d not in compiled:
+                    compiled.append(d)
+    return sorted(out)
 
 
 def history_stats(scn, res):
@@ -742,6 +814,8 @@ def history_stats(scn, res):
             slot_req[op[2]] = slot_req.get(op[1], "mass_p1_interval")
             st["probe_reform"] += 1
     st["hashseed_nonzero"] = int(scn["hashseed"] != 0)
+    if scn.get("chain"):
+        st["probe_chain_histories"] += 1
     return dict(st)
 
 
@@ -995,6 +1069,10 @@ def run_check(prop, tier, base, replay_path=None):
             if op[0] == "build":
                 hashseeds_per_req[op[2]].add(scn["hashseed"])
             prefix.append(op)
+    pairs = set()
+    for r in results:
+        pairs.update(tuple(x) for x in r.get("pairs", []))
+    npool = len(history_pool(dnames))
     probes = {k: v for k, v in stats.items() if k.startswith("probe_")}
     probes["probe_min_distinct_hashseeds_per_request"] = min(
         (len(v) for v in hashseeds_per_req.values()), default=0)
@@ -1016,6 +1094,8 @@ def run_check(prop, tier, base, replay_path=None):
         "goldens": len(goldens),
         "golden_wall_s": round(t_gold, 1),
         "requests": len(dnames),
+        "ordered_request_pairs_covered": len(pairs),
+        "ordered_request_pairs_possible": npool * (npool - 1),
         "fault_kinds_fired": {
             "hash_seed_nonzero": stats["hashseed_nonzero"],
             "unrelated_objects_before_observation": stats["probe_obs_after_5_unrelated_meshes"],
